@@ -23,9 +23,9 @@ ASSUMPTIONS = [
 VARIANTS = {}
 
 
-def add(kind, nm, ns, T, tier, b2b=False, register=False):
-    nm_ = f"wb.{kind}({nm}x{ns},timeout={T},register={register}){'+back_to_back' if b2b else ''}"
-    VARIANTS[nm_] = (tier, dict(kind=kind, nm=nm, ns=ns, register=register, back_to_back=b2b, timeout=T, faults=True, maxlat=T + 1))
+def add(kind, nm, ns, T, tier, b2b=False, register=False, dw=None):
+    nm_ = f"wb.{kind}({nm}x{ns},timeout={T},register={register}){'+back_to_back' if b2b else ''}{f',{dw}bit' if dw else ''}"
+    VARIANTS[nm_] = (tier, dict(kind=kind, nm=nm, ns=ns, register=register, back_to_back=b2b, timeout=T, faults=True, maxlat=T + 1, **({"dw": dw} if dw else {})))
 
 
 for T in (1, 2, 3, 4, 6):
@@ -38,6 +38,10 @@ add("shared", 2, 2, 2, "thorough", b2b=True)
 add("shared", 2, 2, 3, "thorough", register=True)
 add("crossbar", 2, 2, 3, "quick")
 add("crossbar", 1, 2, 2, "quick")
+# wide buses: the all-ones read data of a time-out covers the whole word
+add("timeout", 1, 1, 2, "quick", dw=64)
+add("shared", 1, 2, 2, "quick", dw=32)
+add("shared", 2, 2, 2, "thorough", dw=128)
 
 
 class WaitTimerHarness(Harness):
